@@ -15,9 +15,9 @@ Case line:  <fn>\t<hex arg>\t<hex continuation k>\t<flags/int>
   E escape_string            L quote_literal          D dollar_quote_literal
   C visit_Constant(STRING) through codegen.generate_source
   B visit_BytesConstant through codegen.generate_source        (arg = raw bytes)
-  I quote_ident  (flags bit0 force, bit1 allow_reserved, bit2 allow_num)
+  I quote_ident  (flags bit0 force, bit1 allow_reserved, bit2 allow_num, bit3 allow_partial_reserved=False)
   P Parameter through codegen.generate_source (param_to_str)
-  T ident_to_str (flags bit0 allow_num)                         -- monitor only
+  T ident_to_str (flags bit0 allow_num, bit1 allow_partial_reserved=True)  -- monitor only
   l pgsql quote_literal == dbops.encode_value == pgsql codegen StringConstant
   i pgsql quote_ident (bit0 force, bit1 column)
   b pgsql quote_bytea_literal == pgsql codegen ByteaConstant    (arg = raw bytes)
@@ -163,8 +163,8 @@ def run(fn, arg, k, fl):
             flags.append('value-changed')
         return out, canon, flags
     if fn == 'I':
-        force, ar, an = bool(fl & 1), bool(fl & 2), bool(fl & 4)
-        out = Q.quote_ident(arg, force=force, allow_reserved=ar, allow_num=an)
+        force, ar, an, apr = bool(fl & 1), bool(fl & 2), bool(fl & 4), not (fl & 8)
+        out = Q.quote_ident(arg, force=force, allow_reserved=ar, allow_num=an, allow_partial_reserved=apr)
         canon, kind, val, rest, ttext = lex_first(out + k)
         if ident_expressible(arg) and not num_overflow(arg, an) and not num_then_dot(out, k):
             if canon == 'err':
@@ -177,11 +177,13 @@ def run(fn, arg, k, fl):
                 flags.append('breaks-out')
             elif val != arg:
                 flags.append('value-changed')
-            elif kind == 'K' and not ar:
+            elif kind == 'K':
                 low = arg.lower()
                 from edb.edgeql.parser.grammar import keywords as KW
-                if low in KW.reserved_keywords and not dunder(low):
+                if not ar and low in KW.reserved_keywords and not dunder(low):
                     flags.append('reserved-keyword-left-bare')
+                if not apr and low in KW.partial_reserved_keywords:
+                    flags.append('partial-reserved-keyword-left-bare')
         return out, canon, flags
     if fn == 'P':
         out = ql_gen(qlast.Parameter(name=arg))
@@ -200,8 +202,10 @@ def run(fn, arg, k, fl):
                 flags.append('value-changed')
         return out, canon, flags
     if fn == 'T':
-        out = CG.ident_to_str(arg, allow_num=bool(fl & 1))
+        apr = bool(fl & 2)
+        out = CG.ident_to_str(arg, allow_num=bool(fl & 1), allow_partial_reserved=apr)
         parts = arg.split('::')
+        from edb.edgeql.parser.grammar import keywords as KW
         if all(ident_expressible(p) and not num_overflow(p, bool(fl & 1)) for p in parts) \
                 and not num_then_dot(out.split('::')[-1], k):
             r = qllex.tokenize(out + k)
@@ -216,7 +220,11 @@ def run(fn, arg, k, fl):
                 if t['kind'] == 'Namespace':
                     got.append(('Namespace', None))
                 elif t['kind'] in ('Ident',) or t['kind'].startswith('Keyword'):
-                    got.append(('name', bytes.fromhex(t['value']['v']).decode()))
+                    v = bytes.fromhex(t['value']['v']).decode()
+                    if t['kind'] != 'Ident' and not apr and v.lower() in KW.partial_reserved_keywords:
+                        got.append(('partial-reserved-keyword-left-bare', v))
+                    else:
+                        got.append(('name', v))
                 elif t['kind'] == 'IntConst' and (fl & 1):
                     got.append(('name', bytes.fromhex(t['text']).decode()))
                 else:
